@@ -219,6 +219,8 @@ def inverse_rules(chk):
         out[q] = (sorted(sl, key=repr), spec.describe((R, DT)))
         if q.endswith("fas2values"):
             expect(chk, "R-INV-DT", c + ".result", r.ret, lin=[R], deg={DT: -1}, loc=r.fi.loc())
+            # every one of the N = 2*len(fas) reconstructed samples is returned (N need not be a power of two: explicit n)
+            expect(chk, "R-INV-DT", c + ".result{all samples}", r.ret, shape=(LinExpr("m").scale(2),), loc=r.fi.loc())
     if len(out) == 2:
         a, b = out.values()
         sa = {k: v for k, v in a[1].items() if k != "tags"}
@@ -236,6 +238,8 @@ def inverse_rules(chk):
         if o is not None:
             expect(chk, "R-INV-DT", "eqsig/fns/frequency.py:fas2signal(stype=%s).values" % stype, o.attrs.get("_values"), lin=[R],
                    deg={DT: -1}, loc=r.fi.loc())
+            expect(chk, "R-INV-DT", "eqsig/fns/frequency.py:fas2signal(stype=%s).values{all samples}" % stype, o.attrs.get("_values"),
+                   length=LinExpr("m").scale(2), loc=r.fi.loc())
             expect(chk, "R-INV-DT", "eqsig/fns/frequency.py:fas2signal(stype=%s).dt" % stype, o.attrs.get("_dt"), deg={DT: 1}, loc=r.fi.loc())
 
 
